@@ -119,6 +119,54 @@ theorem slot_safety_drop (cap W : Nat) (h0 : 0 < cap) (h1 : cap < W) (ls : List 
   rw [e1, e2] at h
   exact ring_drop_spec h hw
 
+/-- **no_dup_no_reorder**: `log` is the sequence of successful pushes (slot writes) in execution
+order, each entry tagged with the pushing thread and its payload; `recvd` is what `recv` returned.
+For every number of producers, capacity and schedule, with overflow (drop-oldest, rejected
+`try_send`), `stop()` and source drops anywhere: the received samples are a *subsequence* of the
+pushed ones — every received sample is one pushed sample (same tag and payload), none is received
+twice, and the samples of each producer arrive in the order that producer pushed them. -/
+theorem no_dup_no_reorder (cap W : Nat) (h0 : 0 < cap) (h1 : cap < W) (ls : List Label)
+    (hw : NoWrap (run (init cap W) ls).ring) :
+    let s := run (init cap W) ls
+    List.Sublist s.recvd s.ring.log ∧
+    ∀ i : Nat, List.Sublist (s.recvd.filter (fun x => x.1 == i)) (s.ring.log.filter (fun x => x.1 == i)) := by
+  have hg : GInv (run (init cap W) ls) := run_GInv _ ls (GInv.init _ cap W)
+  have ho := (track_invariant cap W h0 h1 ls hw).ring.outsEq
+  have hsub : List.Sublist (run (init cap W) ls).recvd (run (init cap W) ls).ring.log := by
+    unfold GInv at hg
+    rw [ho] at hg
+    exact hg.trans (List.take_sublist _ _)
+  exact ⟨hsub, fun i => hsub.filter _⟩
+
+/-- **drain_then_eos** (safety half): for every schedule in which `stop()` was never called, whenever
+`recv` has returned end-of-stream (and whenever the `ended` flag is set), every source handle has been
+dropped (`closed`) and the queue has been drained completely: every sample ever pushed has been
+popped (`hcount = tcount`), and that remains so. -/
+theorem eos_only_when_drained (cap W : Nat) (h0 : 0 < cap) (h1 : cap < W) (ls : List Label)
+    (hw : NoWrap (run (init cap W) ls).ring) :
+    let s := run (init cap W) ls
+    s.stopCalled = false → (CRes.eos ∈ s.cres ∨ s.ended = true) →
+      s.closed = true ∧ s.ring.hcount = s.ring.tcount ∧ s.ring.outs = s.ring.log := by
+  intro s hs he
+  have hF : FInv s := run_FInv _ ls (FInv.init cap W h0 h1) hw
+  have hd : Drained s := by
+    cases he with
+    | inl h => exact (hF.e.eos h).resolve_left (by simp [hs])
+    | inr h => exact (hF.e.ended h).resolve_left (by simp [hs])
+  refine ⟨hd.1, hd.2, ?_⟩
+  have hr := hF.t.ring
+  have hnh : s.plock = none := by
+    cases hpl : s.plock with
+    | none => rfl
+    | some i =>
+      have h1 := (hF.t.l.plockIff i).2 hpl
+      have h2 := closed_no_holder s hF.t.l hd.1 i
+      cases hpc : s.pp i <;> simp [hpc, holdsPush, hasHandle] at h1 h2
+  have hlen : s.ring.log.length = s.ring.tcount := by
+    have := hr.logLen
+    simpa [St.puView, hnh, pendW] using this
+  rw [hr.outsEq, hd.2, ← hlen, List.take_length]
+
 /-- non-vacuity: three producers (two clones), a full capacity-1 queue with drop-oldest, a consumer:
 the hypotheses hold and the run delivers a sample -/
 example :
@@ -151,6 +199,53 @@ theorem multi_producer_unsafe_without_lock_witness :
   intro h
   have := h twoProducerSchedule
   revert this
+  decide
+
+/-- The schedule of the second finding: the consumer finds the queue empty, then the producer pushes
+its last sample and drops the source, then the consumer reads `source_closed`. -/
+def lateCloseSchedule : List Label :=
+  [.cons true, .cons false, .cons false, .cons false, .cons false,                    -- recv: … pop → None
+   .prod 0 (some (.send [1])), .prod 0 none, .prod 0 none, .prod 0 none, .prod 0 none,
+   .prod 0 none, .prod 0 none, .prod 0 none,                                            -- send completes
+   .prod 0 (some .dropSrc), .prod 0 none, .prod 0 none, .prod 0 none,                   -- source dropped
+   .cons false, .cons false]                                                            -- closed → EOS
+
+/-- **eos_before_drained_witness**: on the code before commit "fix: SampleStreamTrack::recv …"
+(`rfix = false`, with the producer lock) `eos_only_when_drained` is FALSE: end-of-stream is returned
+while a pushed sample is still queued and is never delivered (replayed on the real code:
+`sched:1:eos-before-drained`). -/
+theorem eos_before_drained_witness :
+    ¬ (∀ ls : List Label, let s := run (St.init ⟨true, false⟩ 1 (2 ^ 64) 0) ls
+        s.stopCalled = false → CRes.eos ∈ s.cres → s.ring.hcount = s.ring.tcount) := by
+  intro h
+  have := h lateCloseSchedule
+  revert this
+  decide
+
+/-- The schedule of the third finding: the source is dropped after the consumer has read
+`source_closed = false` but before it creates its `Notified`. -/
+def lostWakeupSchedule : List Label :=
+  [.cons true, .cons false, .cons false, .cons false, .cons false, .cons false,        -- … closed? no → unlock
+   .prod 0 (some .dropSrc), .prod 0 none, .prod 0 none, .prod 0 none,                   -- drop: closed, notify_waiters
+   .cons false]                                                                         -- notified().await
+
+/-- **lost_wakeup_witness**: on the code before the `recv` fix the consumer can end up blocked
+forever: every source is dropped and `notify_waiters` has run, yet the consumer's waiter is
+registered and was never woken (replayed on the real code: `sched:1:close-never-wakes-consumer`;
+same window for `stop()`: `sched:1:stop-never-wakes-consumer`). -/
+theorem lost_wakeup_witness :
+    let s := run (St.init ⟨true, false⟩ 1 (2 ^ 64) 0) lostWakeupSchedule
+    s.closed = true ∧ s.live = [] ∧ s.pp 0 = .gone ∧ s.cp = .await2 ∧ s.ntf.woken = false ∧
+    blocked s (.cons false) = true := by
+  decide
+
+/-- on the current code the same two schedules end correctly: the late sample is delivered before
+end-of-stream, and the closing `notify_waiters` reaches the `Notified` created first -/
+example :
+    let s := run (init 1 (2 ^ 64)) ([.cons true, .cons false, .cons false, .cons false, .cons false, .cons false, .cons false] ++
+      [.prod 0 (some .dropSrc), .prod 0 none, .prod 0 none, .prod 0 none] ++
+      [.cons false, .cons false, .cons false, .cons false])
+    s.cres = [CRes.eos] ∧ blocked s (.cons false) = false := by
   decide
 
 end RtcModel.Theorems.C20
